@@ -1116,11 +1116,13 @@ def lib_correspondence(env, rep, impl):
             outs.append(hx(y))
             rep.count("N:valid")
             # the assumptions the theorems make about ipaddress (`IpLaws` in Proofs/Uri/NormalForm.lean):
-            # canon (fixed point, colon, lower-case before the zone, no leading v or [), addr (hex
-            # digits, colons, dots before the zone), zone (copied from the input), colon (input)
+            # canon (fixed point, colon, lower-case before the zone, no leading v or [), addr / addrIn
+            # (hex digits, colons, dots before the zone, in the result and in the input), zone (copied
+            # from the input), colon (input)
             head = y.partition("%")[0]
             if not (str(ipaddress.IPv6Address(y)) == y and ":" in y and ":" in t and head == head.lower()
                     and y[0] not in "v[" and all(c in "0123456789abcdef:." for c in head)
+                    and all(c in "0123456789abcdefABCDEF:." for c in t.partition("%")[0])
                     and y.partition("%")[2] == t.partition("%")[2] and ("%" in y) == ("%" in t)):
                 raise HarnessError("ipaddress violates the assumed IpLaws on %r -> %r" % (t, y))
         except ValueError:
